@@ -1707,7 +1707,7 @@ func cmdC07(seed int64, tier, outDir string) {
 	}
 	r := NewRng(seed)
 	sum := NewSummary("C07", seed, tier)
-	sum.Rule = "pipelines source(.method(args)){0..4} run through value.New().Generate; sources: lists (empty, singleton, duplicates, sorted, reversed, random ints incl. extremes, mixed int/float, nested lists/maps, strings, heterogeneous; eager or behind a lazy map stage), unicode strings, maps, static calls; callbacks from a closed pool with Coq twins; 7% of the steps are misuse on purpose; every 7th case is a sibling/source observation (let w = source.producer; [w.modified..., w, source] with append/set/reverse/+ on lists produced by movingWindow*, combineN, groupByEqual, top, skip, cross, map) and every 7th a map pipeline (literal/put/merge/replace chains up to 12) followed by the observer bundle size, list, isAvail, get, put, string for original, replacement-only and absent keys (call arity, argument type, callback arity, callback failing at an element or returning the wrong type, method of another type). Every case applies at least one built-in; distinct by program text and argument values"
+	sum.Rule = "pipelines source(.method(args)){0..4} run through value.New().Generate; sources: lists (empty, singleton, duplicates, sorted, reversed, random ints incl. extremes, mixed int/float, nested lists/maps, strings, heterogeneous; eager or behind a lazy map stage), unicode strings, maps, static calls; callbacks from a closed pool with Coq twins; 7% of the steps are misuse on purpose; every 7th case is a sibling/source observation (let w = source.producer; [w.modified..., w, source] with append/set/reverse/+ on lists produced by movingWindow*, combineN, groupByEqual, top, skip, cross, map) every 14th sorts 13..40 items with order/orderRev/orderLess as the last step (judged by the verified sorted-permutation checker alone) and every 7th a map pipeline (literal/put/merge/replace chains up to 12) followed by the observer bundle size, list, isAvail, get, put, string for original, replacement-only and absent keys (call arity, argument type, callback arity, callback failing at an element or returning the wrong type, method of another type). Every case applies at least one built-in; distinct by program text and argument values"
 	cw := NewCaseWriter(outDir, "From P2 Require Import Base.Prelude Sem.Num Sem.Syntax Sem.Ops Lib.Names Lib.Builtins Run.C07Run.", "c07_case", "c07_id", "c07_im", "c07_is", 300)
 	id := 0
 	if optReplay != "" {
@@ -1733,6 +1733,8 @@ func cmdC07(seed int64, tier, outDir string) {
 			c07Run(r.c07ForkCase(), id, sum, cw)
 		case i%7 == 5:
 			c07Run(r.c07MapObserveCase(), id, sum, cw)
+		case i%14 == 1:
+			c07Run(r.c07LongSortCase(), id, sum, cw)
 		default:
 			c07Run(r.c07GenCase(), id, sum, cw)
 		}
@@ -2218,5 +2220,75 @@ func c07BigReplaceWitness(n, depth int) *C07Case {
 			L: []*c07CExp{c07COp("+", &c07CExp{K: "member", A: c07CArg(0), Key: "k1"}, c07CInt(1)), c07CInt(7)}})))
 	}
 	c.Steps = append(c.Steps, c07Step1("#observe", c07Val(c07TStr("k0")), c07Val(c07TStr("k1")), c07Val(c07TStr("zz")), c07Val(c07TStr("nokey"))))
+	return c
+}
+
+// order / orderRev / orderLess as the last step on more than 12 items (pdqsort proper): judged by the
+// verified checker alone (sorted permutation), no model of the algorithm
+func (r *Rng) c07LongSortCase() *C07Case {
+	c := &C07Case{Origin: "long-sort"}
+	n := 13 + r.Pick(28)
+	c.Src = c07TList()
+	switch r.Pick(6) {
+	case 0: // many duplicates
+		for i := 0; i < n; i++ {
+			c.Src.Items = append(c.Src.Items, c07TInt(r.Pick(4)))
+		}
+	case 1: // already sorted / reversed
+		for i := 0; i < n; i++ {
+			c.Src.Items = append(c.Src.Items, c07TInt(i/2))
+		}
+		if r.Chance(0.5) {
+			for i, j := 0, n-1; i < j; i, j = i+1, j-1 {
+				c.Src.Items[i], c.Src.Items[j] = c.Src.Items[j], c.Src.Items[i]
+			}
+		}
+	case 2: // ints and exact floats
+		for i := 0; i < n; i++ {
+			c.Src.Items = append(c.Src.Items, r.c07Elem("num"))
+		}
+	case 3: // strings
+		for i := 0; i < n; i++ {
+			c.Src.Items = append(c.Src.Items, c07TStr(c07Strings[r.Pick(len(c07Strings))]))
+		}
+	default:
+		for i := 0; i < n; i++ {
+			c.Src.Items = append(c.Src.Items, c07TInt(r.Pick(60)-20))
+		}
+	}
+	if r.Chance(0.03) { // one item of another kind: some comparisons fail
+		c.Src.Items[r.Pick(n)] = c07TStr("x")
+	}
+	if r.Chance(0.3) {
+		c.Src.Repr = "lazy-map"
+	}
+	if r.Chance(0.25) {
+		c.Steps = append(c.Steps, c07Step1("reverse"))
+	}
+	var key *c07CExp = c07CArg(0)
+	if c.Src.Items[0].Kind != "str" {
+		switch r.Pick(4) {
+		case 0:
+			key = c07COp("%", c07CArg(0), c07CInt(2+r.Pick(4))) // ties
+		case 1:
+			key = c07COp("*", c07CArg(0), c07CInt(-1))
+		}
+	}
+	switch r.Pick(4) {
+	case 0:
+		c.Steps = append(c.Steps, c07Step1("orderRev", c07Fn(1, key)))
+	case 1:
+		cmp := []string{"<", ">", "<="}[r.Pick(3)] // <= is not asymmetric: still has to give a permutation ... judged by the checker
+		if cmp == "<=" {
+			cmp = "<"
+		}
+		c.Steps = append(c.Steps, c07Step1("orderLess", c07Fn(2, c07COp(cmp, c07CArg(0), c07CArg(1)))))
+	default:
+		c.Steps = append(c.Steps, c07Step1("order", c07Fn(1, key)))
+	}
+	if r.Chance(0.04) {
+		last := &c.Steps[len(c.Steps)-1]
+		last.Args[0] = c07Fn(last.Args[0].N, c07CStr("s")) // fails on every pair
+	}
 	return c
 }
